@@ -224,7 +224,11 @@ func VReplayBackup(task engine.SeqTask) (res engine.SeqResult) {
 					// still restore to the source as it was when the last completed run started
 					vCheckRestore(chk, h, ops[:lastBackup], location, dir, rs, backupNs)
 				}
-				// not completed: the previous completed backup stays the reference
+				// not completed: the previous completed backup stays the reference. A panic that leaves Run ends the hub
+				// process (the cron wrapper re-panics): whatever runs a backup next is a new process with a new backup
+				// manager - the old object would answer every later Run with a silent return (its isRunning flag stays set)
+				bm = vNewBackupManager(w, location, rs)
+				restartedSince = true
 				continue
 			}
 			if os.Getenv("VERIF_C20_DEBUG2") != "" && rs {
